@@ -438,9 +438,10 @@ func c20(c *ctx) {
 		}
 		addVal := "fsm." + s.addend
 		n := 0
-		for _, cs := range callsIn(f, false, l.poolAdd, l.poolSub) {
+		for _, dc := range c.p.callsInDeep(f, l.poolAdd, l.poolSub) {
+			cs := dc.CS
 			n++
-			p := c.p.path(argOf(cs, 0))
+			p := c.p.pathIn(dc.Chain, argOf(cs, 0))
 			want := "(" + s.chain + " + " + addVal + ")"
 			r.Check(p == want, "R1/"+fnName(f)+"/pool-id", c.p.Pos(cs.Pos()), "pool = "+p, fnName(f)+" moves tokens through pool "+p+", expected "+want+" ("+s.addend+"): escrowed funds would sit in a pool no payout reads")
 		}
